@@ -12,6 +12,15 @@
 //   mtagged <refidx> <mode> <n> <idx..> | mtagged1 <refidx> <mode> <idx>
 //   mfeature <k> <mode> <n> <idx..> | mfeature1 <k> <mode> <idx>
 // mode = incl | excl | default (the call is made WITHOUT the argument, so the header's default is what runs).
+// ROUTES: tagged / feature / mtagged1 / mtagged / mfeature1 / mfeature may carry a route, `tagged@<route> ...`: the same
+// request through another public entry point (all must give the same answer):
+//   idx    util::taggedData / featureData (.., reference or feature INDEX, [match])          (= no route, explicit mode)
+//   arr    util::taggedData (.., const DataArray &, [match])     feat   util::featureData (.., const Feature &, [match])
+//   r_idx  r_arr  r_feat   the DEPRECATED util::retrieveData / retrieveFeatureData twins (their default match is Inclusive)
+//   m_idx  Tag:: / MultiTag:: member by index      m_name  member by the array's name     m_id  member by the array's id
+//   m_fid  member featureData by the feature's id  m_dname member featureData by the data array's name
+//   mr_idx mr_name mr_fid   the members retrieveData / retrieveFeatureData
+// member routes have no RangeMatch parameter: they are called with mode `default` only (Exclusive).
 // Every data array is filled with its own row-major flat index: a view is printed as its shape and the element
 // ids it delivers.
 #ifndef NIXV_RETR_COMMON_HPP
@@ -224,7 +233,109 @@ static nix::RangeMatch rmode(const std::string &m) {
     throw std::logic_error("bad mode " + m);
 }
 
+#define WITH_MODE(m, plain, withmode) (is_default(m) ? (plain) : (withmode))
+static void member_only(const std::string &m) { if (!is_default(m)) throw std::logic_error("member routes take mode default"); }
+
+// the same request through every public entry point
+static std::string routed(const std::string &c, const std::string &route, const std::vector<std::string> &t) {
+    namespace u = nix::util;
+    const std::string &m = t[2];
+    if (c == "tagged") {
+        size_t r = static_cast<size_t>(dec_u64(t[1]));
+        nix::DataArray a = arr(ref_aids.at(r));
+        const std::vector<double> *al = alias_of_ref(r);
+        nix::ndsize_t rr = r;
+        if (route == "idx") return show_view(WITH_MODE(m, u::taggedData(the_tag, rr), u::taggedData(the_tag, rr, rmode(m))), al);
+        if (route == "arr") return show_view(WITH_MODE(m, u::taggedData(the_tag, a), u::taggedData(the_tag, a, rmode(m))), al);
+        if (route == "r_idx") return show_view(WITH_MODE(m, u::retrieveData(the_tag, rr), u::retrieveData(the_tag, rr, rmode(m))), al);
+        if (route == "r_arr") return show_view(WITH_MODE(m, u::retrieveData(the_tag, a), u::retrieveData(the_tag, a, rmode(m))), al);
+        member_only(m);
+        if (route == "m_idx") return show_view(the_tag.taggedData(r), al);
+        if (route == "m_name") return show_view(the_tag.taggedData(a.name()), al);
+        if (route == "m_id") return show_view(the_tag.taggedData(a.id()), al);
+        if (route == "mr_idx") return show_view(the_tag.retrieveData(r), al);
+        if (route == "mr_name") return show_view(the_tag.retrieveData(a.name()), al);
+    }
+    if (c == "feature") {
+        size_t k = static_cast<size_t>(dec_u64(t[1]));
+        nix::Feature f = the_tag.getFeature(static_cast<nix::ndsize_t>(k));
+        const std::vector<double> *al = alias_of_feat(k);
+        nix::ndsize_t kk = k;
+        if (route == "idx") return show_view(WITH_MODE(m, u::featureData(the_tag, kk), u::featureData(the_tag, kk, rmode(m))), al);
+        if (route == "feat") return show_view(WITH_MODE(m, u::featureData(the_tag, f), u::featureData(the_tag, f, rmode(m))), al);
+        if (route == "r_idx") return show_view(WITH_MODE(m, u::retrieveFeatureData(the_tag, kk), u::retrieveFeatureData(the_tag, kk, rmode(m))), al);
+        if (route == "r_feat") return show_view(WITH_MODE(m, u::retrieveFeatureData(the_tag, f), u::retrieveFeatureData(the_tag, f, rmode(m))), al);
+        member_only(m);
+        if (route == "m_idx") return show_view(the_tag.featureData(k), al);
+        if (route == "m_fid") return show_view(the_tag.featureData(f.id()), al);
+        if (route == "m_dname") return show_view(the_tag.featureData(f.data().name()), al);
+        if (route == "mr_idx") return show_view(the_tag.retrieveFeatureData(k), al);
+        if (route == "mr_fid") return show_view(the_tag.retrieveFeatureData(f.id()), al);
+    }
+    if (c == "mtagged1") {
+        nix::ndsize_t r = dec_u64(t[1]), i = dec_u64(t[3]);
+        nix::DataArray a = arr(ref_aids.at(static_cast<size_t>(r)));
+        const std::vector<double> *al = alias_of_ref(static_cast<size_t>(r));
+        if (route == "idx") return show_view(WITH_MODE(m, u::taggedData(the_mtag, i, r), u::taggedData(the_mtag, i, r, rmode(m))), al);
+        if (route == "arr") return show_view(WITH_MODE(m, u::taggedData(the_mtag, i, a), u::taggedData(the_mtag, i, a, rmode(m))), al);
+        if (route == "r_idx") return show_view(WITH_MODE(m, u::retrieveData(the_mtag, i, r), u::retrieveData(the_mtag, i, r, rmode(m))), al);
+        if (route == "r_arr") return show_view(WITH_MODE(m, u::retrieveData(the_mtag, i, a), u::retrieveData(the_mtag, i, a, rmode(m))), al);
+        member_only(m);
+        size_t si = static_cast<size_t>(i), sr = static_cast<size_t>(r);
+        if (route == "m_idx") return show_view(the_mtag.taggedData(si, sr), al);
+        if (route == "m_name") return show_view(the_mtag.taggedData(si, a.name()), al);
+        if (route == "m_id") return show_view(the_mtag.taggedData(si, a.id()), al);
+        if (route == "mr_idx") return show_view(the_mtag.retrieveData(si, sr), al);
+        if (route == "mr_name") return show_view(the_mtag.retrieveData(si, a.name()), al);
+    }
+    if (c == "mtagged") {
+        std::vector<nix::ndsize_t> ix = idxs(t, 3);
+        nix::ndsize_t r = dec_u64(t[1]);
+        nix::DataArray a = arr(ref_aids.at(static_cast<size_t>(r)));
+        const std::vector<double> *al = alias_of_ref(static_cast<size_t>(r));
+        if (route == "idx") return show_views(WITH_MODE(m, u::taggedData(the_mtag, ix, r), u::taggedData(the_mtag, ix, r, rmode(m))), al);
+        if (route == "arr") return show_views(WITH_MODE(m, u::taggedData(the_mtag, ix, a), u::taggedData(the_mtag, ix, a, rmode(m))), al);
+        if (route == "r_idx") return show_views(WITH_MODE(m, u::retrieveData(the_mtag, ix, r), u::retrieveData(the_mtag, ix, r, rmode(m))), al);
+        if (route == "r_arr") return show_views(WITH_MODE(m, u::retrieveData(the_mtag, ix, a), u::retrieveData(the_mtag, ix, a, rmode(m))), al);
+        member_only(m);
+        if (route == "m_idx") return show_views(the_mtag.taggedData(ix, r), al);
+        if (route == "m_name") return show_views(the_mtag.taggedData(ix, a.name()), al);
+        if (route == "m_id") return show_views(the_mtag.taggedData(ix, a.id()), al);
+        if (route == "mr_idx") return show_views(the_mtag.retrieveData(ix, r), al);
+        if (route == "mr_name") return show_views(the_mtag.retrieveData(ix, a.name()), al);
+    }
+    if (c == "mfeature1") {
+        nix::ndsize_t k = dec_u64(t[1]), i = dec_u64(t[3]);
+        nix::Feature f = the_mtag.getFeature(static_cast<size_t>(k));
+        const std::vector<double> *al = alias_of_feat(static_cast<size_t>(k));
+        if (route == "idx") return show_view(WITH_MODE(m, u::featureData(the_mtag, i, k), u::featureData(the_mtag, i, k, rmode(m))), al);
+        if (route == "feat") return show_view(WITH_MODE(m, u::featureData(the_mtag, i, f), u::featureData(the_mtag, i, f, rmode(m))), al);
+        if (route == "r_idx") return show_view(WITH_MODE(m, u::retrieveFeatureData(the_mtag, i, k), u::retrieveFeatureData(the_mtag, i, k, rmode(m))), al);
+        if (route == "r_feat") return show_view(WITH_MODE(m, u::retrieveFeatureData(the_mtag, i, f), u::retrieveFeatureData(the_mtag, i, f, rmode(m))), al);
+        member_only(m);
+        size_t si = static_cast<size_t>(i), sk = static_cast<size_t>(k);
+        if (route == "m_idx") return show_view(the_mtag.featureData(si, sk), al);
+        if (route == "m_fid") return show_view(the_mtag.featureData(si, f.id()), al);
+        if (route == "m_dname") return show_view(the_mtag.featureData(si, f.data().name()), al);
+        if (route == "mr_idx") return show_view(the_mtag.retrieveFeatureData(si, sk), al);
+        if (route == "mr_fid") return show_view(the_mtag.retrieveFeatureData(si, f.id()), al);
+    }
+    if (c == "mfeature") {
+        std::vector<nix::ndsize_t> ix = idxs(t, 3);
+        nix::ndsize_t k = dec_u64(t[1]);
+        nix::Feature f = the_mtag.getFeature(static_cast<size_t>(k));
+        const std::vector<double> *al = alias_of_feat(static_cast<size_t>(k));
+        if (route == "idx") return show_views(WITH_MODE(m, u::featureData(the_mtag, ix, k), u::featureData(the_mtag, ix, k, rmode(m))), al);
+        if (route == "feat") return show_views(WITH_MODE(m, u::featureData(the_mtag, ix, f), u::featureData(the_mtag, ix, f, rmode(m))), al);
+        if (route == "r_idx") return show_views(WITH_MODE(m, u::retrieveFeatureData(the_mtag, ix, k), u::retrieveFeatureData(the_mtag, ix, k, rmode(m))), al);
+        if (route == "r_feat") return show_views(WITH_MODE(m, u::retrieveFeatureData(the_mtag, ix, f), u::retrieveFeatureData(the_mtag, ix, f, rmode(m))), al);
+    }
+    throw std::logic_error("bad route " + c + "@" + route);
+}
+
 static std::string handle(const std::vector<std::string> &t) {
+    size_t at = t[0].find('@');
+    if (at != std::string::npos) return routed(t[0].substr(0, at), t[0].substr(at + 1), t);
     const std::string &c = t[0];
     if (c == "reset") { reset(); return "done"; }
     if (c == "arr") { make_array(t); return "done"; }
